@@ -33,6 +33,21 @@ private theorem aggOk_documented : ∀ g ∈ aggArgs, aggOk g = true := by decid
 
 private theorem mem_bools (r : Bool) : r ∈ [true, false] := by cases r <;> simp
 
+/-- turning a run into the explicit error of the within-type guard keeps a decision good -/
+private theorem good_refine (nd : NameD) (ax : Option (String × AxisKind)) (td : TypeD) (r : Bool)
+    (b : Option String) (d : Decision) (h : goodD nd ax td r d = true) :
+    goodD nd ax td r (refineWithin nd b d) = true := by
+  cases d with
+  | error w => exact h
+  | unhandled w => exact h
+  | run cls m a src =>
+    show goodD nd ax td r (if (m == "_plot_core" && ClassTable.refusesWithin.contains cls &&
+      isWithinType (effBinType nd b)) = true then .error .withinBinType else .run cls m a src) = true
+    by_cases hc : (m == "_plot_core" && ClassTable.refusesWithin.contains cls &&
+      isWithinType (effBinType nd b)) = true
+    · rw [if_pos hc]; rfl
+    · rw [if_neg hc]; exact h
+
 /-- **C19 (dispatch).**  For every documented metric or diagram, `-x` dimension (or none), `-type`,
     bin type (or none), with or without `-r`, with 0–3 `-q` values and every documented aggregator (or
     none, or a number), the driver's decision is either an explicit error exit or a run of a method
@@ -52,7 +67,7 @@ theorem C19_dispatch_total :
   | none => simp [hnd] at h
   | some nd =>
     simp only [hnd, Bool.and_eq_true] at h ⊢
-    exact h.1
+    exact good_refine nd _ _ _ b _ h.1
 
 /-- no documented combination reaches a base-class default that raises, or a class that does not exist -/
 theorem C19_never_unhandled :
@@ -166,5 +181,136 @@ example : dispatch ⟨"reliability", some "time", "plot", none, true, 0, none⟩
 example : dispatch ⟨"qq", none, "map", none, false, 0, none⟩ = .error (.stub "_map_core") := by decide +kernel
 example : dispatch ⟨"spread", none, "plot", none, false, 1, none⟩ = .error .tooFewQuantiles := by decide +kernel
 example : Spec.Dispatch.names.length = 98 ∧ axisArgs.length = 20 ∧ Spec.Dispatch.types.length = 8 := by decide
+
+/-! ### the within-type guard of the single-threshold diagrams -/
+
+/-- the documented names whose `_plot_core` refuses within-type bins (read from the generated table) -/
+def singleThresholdDiagrams : List String :=
+  Spec.Dispatch.names.filter fun n => match nameD n with
+    | some nd => ClassTable.refusesWithin.contains nd.cls
+    | none => false
+
+/-- a decision whose `-type` leads to a method the class overrides is an error exit or a run of THAT method of
+    THAT class (for all arguments, documented or not) -/
+private theorem dispatchD_run_or_error (nd : NameD) (ax : Option (String × AxisKind)) (td : TypeD) (r : Bool)
+    (q : Nat) (ok : Bool) (m : String) (hf : finish nd.overrides td = .run m) :
+    (∃ w, dispatchD nd ax td r q ok = .error w) ∨ ∃ a src, dispatchD nd ax td r q ok = .run nd.cls m a src := by
+  unfold dispatchD
+  split
+  · exact Or.inl ⟨_, rfl⟩
+  · split
+    · exact Or.inl ⟨_, rfl⟩
+    · split
+      · exact Or.inl ⟨_, rfl⟩
+      · split
+        split
+        · exact Or.inl ⟨_, rfl⟩
+        · split
+          · exact Or.inl ⟨_, rfl⟩
+          · split
+            · exact Or.inl ⟨_, rfl⟩
+            · rw [hf]
+              exact Or.inr ⟨_, _, rfl⟩
+
+/-- per diagram of the list: `-type plot` leads to `_plot_core`, which the class overrides -/
+private theorem single_plot_core :
+    (singleThresholdDiagrams.all fun n => match nameD n with
+      | some nd => finish nd.overrides (typeD "plot") == .run "_plot_core" && ClassTable.refusesWithin.contains nd.cls
+      | none => false) = true := by
+  decide +kernel
+
+/-- **C19 (within-type bins).**  For every diagram of that list (the documented names whose output class carries the
+    guard), EVERY `-x` value, every within-type `-b`, with or without `-r`, any number of `-q` values and any
+    `-agg` value, `-type plot` ends in an explicit error (never in a run that indexes the empty interval list). -/
+theorem C19_within_refused :
+    ∀ n ∈ singleThresholdDiagrams, ∀ a : Option String, ∀ b ∈ ["within", "=within", "within=", "=within="],
+    ∀ r : Bool, ∀ q : Nat, ∀ g : Option AggArg, ∃ w, dispatch ⟨n, a, "plot", some b, r, q, g⟩ = .error w := by
+  intro n hn a b hb r q g
+  have key := single_plot_core
+  rw [List.all_eq_true] at key
+  have k := key n hn
+  have hw : isWithinType (some b) = true := by
+    simp only [List.mem_cons, List.not_mem_nil, or_false] at hb
+    rcases hb with rfl | rfl | rfl | rfl <;> decide
+  simp only [dispatch]
+  cases hnd : nameD n with
+  | none => rw [hnd] at k; simp at k
+  | some nd =>
+    rw [hnd] at k
+    simp only [Bool.and_eq_true, beq_iff_eq] at k
+    rcases dispatchD_run_or_error nd (axisD a) (typeD "plot") r q (aggOk g) "_plot_core" k.1 with ⟨w, hw'⟩ | ⟨a', src, hr⟩
+    · exact ⟨w, by simp only [hw', refineWithin]⟩
+    · refine ⟨.withinBinType, ?_⟩
+      simp only [hr, refineWithin, effBinType, hw, k.2, Bool.and_self, beq_self_eq_true, if_true]
+
+/-- the list is not empty: `roc`, `reliability` and `discrimination` have carried the guard all along (the
+    repaired `performance`, `droc`, `droc0`, `bsdecomp` join it once the guard is in the source) -/
+example : "roc" ∈ singleThresholdDiagrams ∧
+    dispatch ⟨"roc", none, "plot", some "within", true, 0, none⟩ = .error .withinBinType ∧
+    dispatch ⟨"roc", none, "plot", some "above", true, 0, none⟩ = .run "Roc" "_plot_core" "leadtime" .given := by
+  refine ⟨by decide +kernel, by decide +kernel, by decide +kernel⟩
+
+/-! ### `-T` / `-Tagg` / `-Tx` and `-c` -/
+
+/-- **C19 (dispatch, with pre-aggregation and climatology arguments).**  For every documented
+    combination of `C19_dispatch_total` and EVERY value of `-T` (an integer of any sign, or a string that
+    is no integer, or absent), every `-Tagg` (documented, a number, or an unknown name), every `-Tx`
+    (any string) and with or without `-c`, the decision is an explicit error exit or a good run. -/
+theorem C19_dispatch_total_T :
+    ∀ n ∈ Spec.Dispatch.names, ∀ a ∈ axisArgs, ∀ t ∈ Spec.Dispatch.types, ∀ b ∈ binArgs, ∀ r : Bool,
+    ∀ q ∈ qCounts, ∀ g ∈ aggArgs, ∀ ta : TArgs,
+      good ⟨n, a, t, b, r, q, g⟩ (dispatchT ⟨⟨n, a, t, b, r, q, g⟩, ta⟩) = true := by
+  intro n hn a ha t ht b hb r q hq g hg ta
+  have h := C19_dispatch_total n hn a ha t ht b hb r q hq g hg
+  unfold dispatchT
+  cases hc : tCheck ta with
+  | none => simpa using h
+  | some w =>
+    simp only [good] at h ⊢
+    cases hnd : nameD n with
+    | none => simp [hnd] at h
+    | some nd => simp [goodD]
+
+/-- the documented uses are accepted: a positive whole number of hours, a documented aggregator (or a
+    quantile level), `-Tx time` or `-Tx leadtime`, with or without a climatology file — the decision is
+    then the one of the command line without these arguments -/
+theorem C19_T_documented_accepted (v : Int) (hv : 0 < v) :
+    ∀ g ∈ aggArgs, ∀ tx ∈ [none, some "time", some "leadtime"], ∀ clim : Bool, ∀ c : Cmd,
+      dispatchT ⟨c, ⟨some (.int v), g, tx, clim⟩⟩ = dispatch c := by
+  intro g hg tx htx clim c
+  have hg' := aggOk_documented g hg
+  have hx : ∀ tx ∈ [none, some "time", some "leadtime"], tAxisBad tx = false := by decide +kernel
+  have hx' := hx tx htx
+  have : tCheck ⟨some (.int v), g, tx, clim⟩ = none := by
+    unfold tCheck
+    have : ¬ v ≤ 0 := by omega
+    simp [hg', hx', this]
+  simp only [dispatchT, this]
+
+/-- what is not a positive integer is refused with a message (never handed to `Data`) -/
+theorem C19_T_rejected (ta : TArgs) (h : ta.len = some .notInt ∨ ∃ v, ta.len = some (.int v) ∧ v ≤ 0) (c : Cmd) :
+    ∃ w, dispatchT ⟨c, ta⟩ = .error w := by
+  have : ∃ w, tCheck ta = some w := by
+    unfold tCheck
+    rcases h with h | ⟨v, h, hv⟩
+    · exact ⟨.badT, by simp [h]⟩
+    · rw [h]
+      generalize aggOk ta.agg = x
+      generalize tAxisBad ta.axis = y
+      cases x <;> cases y <;> simp [hv]
+  obtain ⟨w, hw⟩ := this
+  exact ⟨w, by simp only [dispatchT, hw]⟩
+
+/-- `-c` / `-C` do not enter the dispatch: class, method, axis and thresholds are those of the
+    command line without it -/
+theorem C19_clim_irrelevant (c : Cmd) (ta : TArgs) (b : Bool) :
+    dispatchT ⟨c, { ta with clim := b }⟩ = dispatchT ⟨c, ta⟩ := rfl
+
+example : dispatchT ⟨⟨"mae", some "location", "csv", none, false, 0, none⟩, ⟨some (.int 2), some (.named "sum"), some "time", true⟩⟩
+    = .run "Standard" "_get_x_y" "location" .none := by decide +kernel
+example : dispatchT ⟨⟨"mae", none, "plot", none, false, 0, none⟩, ⟨some (.int 0), none, none, false⟩⟩ = .error .nonPositiveT := by
+  decide +kernel
+example : dispatchT ⟨⟨"mae", none, "plot", none, false, 0, none⟩, ⟨some (.int 2), some (.named "foo"), none, false⟩⟩ = .error .unknownAgg := by
+  decide +kernel
 
 end VerifModel.C19
